@@ -453,6 +453,12 @@ def gen_sync():
     for src_ in (sr, cr):
         b = ns(fn_body(src_, "poll_for_messages"))
         handles_all = handles_all and ("whileletSome(message)=client.receive_message(DefaultChannel::ReliableOrdered){" in b or "whileletSome(message)=server.receive_message(client_id,DefaultChannel::ReliableOrdered){" in b) and "break;" not in b and "break}" not in b
+    # how a received value is compared with the one held: `none` -> different; else the negation of reflect_partial_eq
+    ivd = ns(fn_body(lib, "is_value_different"))
+    cmp_ok = ivd == "ifprevious_value.is_none(){returntrue;}!previous_value.unwrap().reflect_partial_eq(component_data).unwrap_or(true)"
+    uses_cmp = "is_value_different(" in ns(apply_body)
+    text += "/-- `apply_component_change_from_network` skips a value iff `reflect_partial_eq` says it equals the one held (the model's `same`) -/\n"
+    text += "def applyComparesByPartialEq : Bool := %s\n" % str(cmp_ok and uses_cmp).lower()
     text += "/-- both `react_on_changed_components` send every change they pop from the queue -/\n"
     text += "def reactDrainsWholeQueue : Bool := %s\n" % str(drains).lower()
     text += "/-- both `poll_for_messages` handle every message they take from the channel (no `break` in the receive loop) -/\n"
@@ -788,7 +794,11 @@ def gen_asset():
     for c in ("mesh", "image", "audio"):
         b = re.sub(r"\s+", "", fn_body(amod_src, "process_%s_assets" % c))
         filed_here = ("sync_tracker.handle_pushed_from_network(id);" in b) or ("sync_tracker.pushed_handles_from_network.insert(id);" in b)
-        proc = proc and "map.drain()" in b and filed_here and ".insert(" in b and ".take(" not in b and "break" not in b
+        # ... unconditionally: no test of a switch (or of anything else) in front of the filing
+        first_if = b.find("if", b.find("map.drain()"))
+        filing = max(b.find("sync_tracker.handle_pushed_from_network(id);"), b.find("sync_tracker.pushed_handles_from_network.insert(id);"))
+        unconditional = filed_here and (first_if < 0 or filing < first_if)
+        proc = proc and "map.drain()" in b and unconditional and ".insert(" in b and ".take(" not in b and "break" not in b
     # react_on_changed_<class>: debounce, serve, announce
     react = True
     for side, sender in (("server", "server.send_message(cid,"), ("client", "client.send_message(")):
